@@ -91,7 +91,11 @@ type Case struct {
 	Inner    string    `json:"inner"` // decoding side of the transport: fake (client/fake) or gnmi (client/gnmi)
 	Attempts []Attempt `json:"attempts"`
 	Ops      []Act     `json:"ops"`
-	Trace    []Ev      `json:"trace,omitempty"`
+	// Then: further calls on the same client after the first Subscribe (and the
+	// Close the acts made, if any) have returned, one after the other: sub,
+	// close, subclose (Subscribe and Close started together; ReconnectClient only).
+	Then  []string `json:"then,omitempty"`
+	Trace []Ev     `json:"trace,omitempty"`
 }
 
 func (c Case) reconnect() bool { return strings.HasPrefix(c.Kind, "re") }
@@ -181,7 +185,8 @@ type scen struct {
 	closer       func() error
 	closeCalled  bool // under mu
 	cancelCalled bool // under mu
-	ending       bool // under mu: the scenario is over, late acts are dropped
+	ending       bool // under mu: the first session is over, late acts are dropped
+	inThen       int32
 	stopCalled   int32
 	closeFailed  int32
 	closeDone    chan struct{}
@@ -372,7 +377,11 @@ func factory(ctx context.Context, d client.Destination) (client.Impl, error) {
 			}
 			if !s.c.reconnect() {
 				// Close has no effect on a bare client that is still connecting
-				s.act(Act{What: "cancel"}, false)
+				if atomic.LoadInt32(&s.inThen) != 0 {
+					s.thenCancel()
+				} else {
+					s.act(Act{What: "cancel"}, false)
+				}
 			} else if atomic.LoadInt32(&s.stopCalled) == 0 {
 				s.act(Act{What: "close"}, false)
 			}
@@ -540,7 +549,11 @@ func (m *impl) Recv() error {
 		}
 		return io.EOF
 	case "block":
-		if atomic.LoadInt32(&m.s.stopCalled) == 0 {
+		if atomic.LoadInt32(&m.s.inThen) != 0 {
+			if !m.s.c.reconnect() {
+				m.s.thenCancel()
+			}
+		} else if atomic.LoadInt32(&m.s.stopCalled) == 0 {
 			// nothing has stopped the client so far and nothing arrives any more:
 			// close it now (Close while the stream is idle)
 			m.s.act(Act{What: "close"}, false)
@@ -750,9 +763,82 @@ func runCase(c Case) []Ev {
 			return hang()
 		}
 	}
+	// further calls on the same client
+	atomic.StoreInt32(&s.inThen, 1)
+	subscribe := func() chan struct{} {
+		done := make(chan struct{})
+		go func() {
+			defer close(done)
+			defer func() {
+				if r := recover(); r != nil {
+					s.log(Ev{T: "panic"})
+				}
+			}()
+			s.log(Ev{T: "subcall"})
+			err := cl.Subscribe(ctx, q, "c18")
+			r := rcls(err)
+			if !c.reconnect() && r == "canceled" {
+				r = "other"
+			}
+			s.log(Ev{T: "subret", R: r})
+		}()
+		return done
+	}
+	closeIt := func() chan struct{} {
+		done := make(chan struct{})
+		atomic.StoreInt32(&s.stopCalled, 1)
+		go func() {
+			defer close(done)
+			defer func() {
+				if r := recover(); r != nil {
+					s.log(Ev{T: "panic"})
+				}
+			}()
+			s.log(Ev{T: "closecall"})
+			err := s.closer()
+			s.log(Ev{T: "closeret", OK: err == nil})
+		}()
+		return done
+	}
+	for _, call := range c.Then {
+		var waits []chan struct{}
+		switch call {
+		case "sub":
+			waits = append(waits, subscribe())
+		case "close":
+			waits = append(waits, closeIt())
+		case "subclose":
+			if c.reconnect() {
+				waits = append(waits, subscribe(), closeIt())
+			} else {
+				waits = append(waits, closeIt())
+			}
+		}
+		for _, w := range waits {
+			select {
+			case <-w:
+			case <-timer.C:
+				return hang()
+			}
+		}
+	}
 	s.freeze()
 	s.kill()
 	return s.snapshot()
+}
+
+// thenCancel cancels the caller's context during the later calls (the only
+// thing that stops a bare client whose new Subscribe blocks).
+func (s *scen) thenCancel() {
+	s.mu.Lock()
+	if !s.cancelCalled {
+		s.cancelCalled = true
+		if !s.frozen {
+			s.trace = append(s.trace, Ev{T: "cancelcall"})
+		}
+	}
+	s.mu.Unlock()
+	s.parentCancel()
 }
 
 func (s *scen) freeze() {
@@ -1003,7 +1089,7 @@ func nontrivial(c Case) bool {
 }
 
 func canonical(c Case) string {
-	b, _ := json.Marshal([]interface{}{c.Kind, c.Inner, c.Attempts, c.Ops})
+	b, _ := json.Marshal([]interface{}{c.Kind, c.Inner, c.Attempts, c.Ops, c.Then})
 	return string(b)
 }
 
@@ -1030,6 +1116,7 @@ func (e *emitter) emit(c Case) {
 		}
 	}
 	e.meta.Hist(fmt.Sprintf("attempts:%d", len(c.Attempts)))
+	e.meta.Hist(fmt.Sprintf("later-calls:%d", len(c.Then)))
 	e.meta.Hist(fmt.Sprintf("tracelen:%02d", (len(c.Trace)/10)*10))
 	e.meta.Count(c.Family, canonical(c), nontrivial(c), c)
 	if e.cf.Len() >= e.limit {
@@ -1149,6 +1236,37 @@ func main() {
 				}
 			}
 		}
+		// sequences of calls on one client: Subscribe ... Close ... Subscribe ...
+		rcThens := [][]string{{"sub"}, {"sub", "sub"}, {"sub", "sub", "sub"}, {"close", "sub", "sub"},
+			{"sub", "close", "sub"}, {"subclose"}, {"subclose", "sub", "sub"}, {"close", "close", "sub"},
+			{"sub", "subclose", "sub"}}
+		baseThens := [][]string{{"sub"}, {"close", "sub"}, {"sub", "close", "sub"}, {"close", "close", "sub", "sub"},
+			{"sub", "sub", "close"}, {"close"}}
+		seqScripts := [][]Attempt{
+			{ok(msg(), block())},
+			{ok(msg(), eof()), ok(msg(), block()), ok(msg(), msg()), ok(msg(), block())},
+			{ok(msg(), msg(), block()), ok(msg(), eof()), ok(msg(), block()), ok(msg3())},
+		}
+		for _, kind := range kinds {
+			rc := strings.HasPrefix(kind, "re")
+			thens := baseThens
+			firsts := [][]Act{nil, {{Gate: "recv:0:1", What: "close"}}, {{Gate: "recv:0:1", What: "cancel"}}, {{Gate: "before", What: "close"}}, {{Gate: "h:0:1", What: "close"}}}
+			if rc {
+				thens = rcThens
+				firsts = append(firsts, []Act{{Gate: "race", What: "close"}}, []Act{{Gate: "init:0", What: "close"}})
+			}
+			for si, as := range seqScripts {
+				for fi, first := range firsts {
+					for ti, th := range thens {
+						inner := []string{"fake", "gnmi"}[(si+fi+ti)%2]
+						if !o.Thorough() && (si+fi+ti)%2 == 1 && (kind == "recache" || kind == "cache") {
+							continue
+						}
+						cs = append(cs, Case{Family: "calls", Kind: kind, Inner: inner, Attempts: as, Ops: first, Then: th})
+					}
+				}
+			}
+		}
 		delays := []int{0}
 		if o.Thorough() {
 			delays = []int{0, 50, 300, 2000}
@@ -1184,7 +1302,14 @@ func main() {
 			kind := kinds[rr.Pick(4, 3, 2, 1)]
 			inner := []string{"fake", "gnmi"}[rr.Intn(2)]
 			as := randScript(rr, inner == "gnmi")
-			cs = append(cs, Case{Family: "random", Kind: kind, Inner: inner, Attempts: as, Ops: randActs(rr, as, strings.HasPrefix(kind, "re"))})
+			var then []string
+			if rr.Chance(1, 3) {
+				n := 1 + rr.Intn(4)
+				for j := 0; j < n; j++ {
+					then = append(then, []string{"sub", "sub", "close", "subclose"}[rr.Intn(4)])
+				}
+			}
+			cs = append(cs, Case{Family: "random", Kind: kind, Inner: inner, Attempts: as, Ops: randActs(rr, as, strings.HasPrefix(kind, "re")), Then: then})
 		}
 	}
 	runAll(cs, par)
